@@ -179,9 +179,25 @@ def nested_case(rng, d, pos=None, mixed=None):
     return c
 
 
-def triage(case, fmt, la, lb, line):
+def graph_only_collision(case, mode, la=None, lb=None):
+    """scope of C03_F1 decided by its mechanism: the common statements of the groups exist only because N-TRIPLES drops the graph
+    term — with N-QUADS output (the partition does not depend on the format) the same groups are disjoint.  (The components of a
+    MAXIMAL label follow the position ordering the partitioner chose, so 'the labels differ in the graph component' cannot be read
+    off the label text.)"""
+    try:
+        nq, _ = group_sets(cg.config_text(case.mapping, fmt='N-QUADS', partitioning=mode))
+    except Exception:
+        return False
+    if la is not None:
+        return la in nq and lb in nq and not (nq[la] & nq[lb])
+    return sum(len(v) for v in nq.values()) == len(set().union(*nq.values())) if nq else False
+
+
+def triage(case, fmt, la, lb, line, mode=None):
     a, b = la.split('-'), lb.split('-')
     if fmt == 'N-TRIPLES' and len(a) == 4 and len(b) == 4 and a[:3] == b[:3] and a[3] != b[3]:
+        return 'C03_F1'
+    if fmt == 'N-TRIPLES' and mode is not None and la and lb and graph_only_collision(case, mode, la, lb):
         return 'C03_F1'
     # not token safe: a data-dependent IRI / blank node term that is reference-valued (emitted verbatim) and a colliding line
     # whose split at '> <' is ambiguous
@@ -213,7 +229,7 @@ def disjoint_case(ctx, case, fmt, mode, kindname):
             if common:
                 line = sorted(common)[0]
                 ctx.violation(f'groups {la} and {lb} both produce {line!r} ({len(common)} common statement(s))', inp,
-                              finding=triage(case, fmt, la, lb, line))
+                              finding=triage(case, fmt, la, lb, line, mode))
                 return
 
 
@@ -281,7 +297,7 @@ def cli_case(ctx, case, fmt, mode, use_dir):
         if not f1 and fmt == 'N-TRIPLES':
             # the same scope read off the groups themselves (the rules that differ only in their graph maps may belong to
             # different triples maps): every duplicated line is produced only by groups whose labels agree on S, P, O
-            f1 = dups_only_across_graph_labels(case, fmt, mode, texts)
+            f1 = dups_only_across_graph_labels(case, fmt, mode, texts) or graph_only_collision(case, mode)
         ctx.violation(f'the output holds {dup} duplicate line(s); logged total {total}, distinct statements {len(set(texts))}', inp,
                       finding='C03_F1' if f1 else triage(case, fmt, '', '', ''))
 
